@@ -3,16 +3,18 @@ CONSTANTS
   Ident = "kitty"
   Style3 = "block"
   Bits = 3
-  Fams = {"Q", "S", "O", "L", "F", "T", "I"}
+  Fams = {"Q", "O", "L", "T", "I"}
   WithBad = FALSE
   WithInv = FALSE
   Dyn = FALSE
+  WithDC = TRUE
 VIEW View
 INVARIANT PlacementsExact
 INVARIANT NoDuplicates
 INVARIANT OutputBracketed
 INVARIANT DeletionsFirst
 INVARIANT ClearedOnStartStopClear
+INVARIANT ClearedByDirectCall
 INVARIANT NoGraphicsIfUnsupported
 INVARIANT TerminalSane
 INVARIANT DistinctZ
